@@ -1,7 +1,7 @@
 import os, random, itertools
 from tools import vlib, cli
 
-RULE = ("the real binary on file sets drawn from {clean, warning-only, erroring, mixed, unparsable, empty, missing, excluded-by-pattern} x "
+RULE = ("the real binary on file sets drawn from {clean, warning-only, erroring, mixed, unparsable, empty, missing, excluded-by-pattern, missing-and-excluded, listed directory whose name is excluded} x "
         "severity configurations (default, a warning lint denied, an error lint allowed, a warning lint allowed) x --allow-warnings x "
         "--no-exclude x --no-summary x display styles {rich, quiet, json, json2} x luacheck mode; every sign pattern of (errors, warnings, "
         "parse errors, missing) x allow-warnings is forced at least once; exit status, summary presence and totals are predicted by the Lean "
@@ -99,12 +99,46 @@ def body(ctx):
     # random file sets x configs x flags x styles
     n = 40 if ctx.tier == "quick" else 400
     pool = ["clean", "warn", "warn2", "err", "err2", "mixed", "parse", "parse2", "empty", "comment", "missing",
-            "excl:err", "excl:warn", "excl:clean", "excl:parse", "filtered", "nonascii", "crlf"]
+            "excl:err", "excl:warn", "excl:clean", "excl:parse", "excl:missing", "filtered", "nonascii", "crlf"]
     for i in range(n):
         kinds = [rng.choice(pool) for _ in range(rng.randint(1, 6))]
         d, files = build_dir(ctx, f"rnd{i}", kinds)
         flags = (rng.random() < 0.5, rng.random() < 0.4, rng.random() < 0.3, rng.random() < 0.2)
         one_run(ctx, lines, d, files, rng.randrange(len(CONFIGS)), flags, rng.choice(["quiet", "json2", "rich", "json"]), rng)
+    # a listed file that is missing *and* matches an exclude pattern is still a missing listed file
+    for i, kinds in enumerate([["excl:missing"], ["clean", "excl:missing"], ["warn", "excl:missing", "excl:err"]]):
+        d, files = build_dir(ctx, f"exclmiss{i}", kinds)
+        for aw in (False, True):
+            for ne in (False, True):
+                one_run(ctx, lines, d, files, 0, (aw, ne, False, False), rng.choice(["quiet", "json2"]), rng)
+    # a listed *directory* whose own name matches an exclude pattern: the pattern is applied to each file found in it,
+    # not to the directory (its files do not match), so they are checked
+    for i, inner in enumerate([["err"], ["warn", "clean"], ["parse"], ["clean"]]):
+        d = os.path.join(ctx.workdir, f"dir{i}")
+        os.makedirs(os.path.join(d, "legacy"), exist_ok=True)
+        inner_files = []
+        for j, kind in enumerate(inner):
+            fname = f"legacy/f_{j}_{kind}.lua"
+            with open(os.path.join(d, fname), "w", newline="") as fh:
+                fh.write(cli.FILE_KINDS[kind])
+            inner_files.append(fname)
+        with open(os.path.join(d, "f_top_clean.lua"), "w") as fh:
+            fh.write(cli.FILE_KINDS["clean"])
+        for aw in (False, True):
+            for ne in (False, True):
+                cfgname = "cfgdir.toml"
+                cli.write_config(d, exclude=["excl_*.lua", "legacy"], name=cfgname)
+                outcomes = [cli.single_file_outcome(d, f, cfgname)[0] for f in inner_files + ["f_top_clean.lua"]]
+                args = ["--config", cfgname, "--num-threads", "2", "--display-style", "json2"] + (["--allow-warnings"] if aw else []) + (["--no-exclude"] if ne else [])
+                rc, out, err = cli.run_selene(args + ["legacy", "f_top_clean.lua"], d)
+                diags, summary, bad = cli.parse_json_lines(out)
+                perr = sum(1 for x in diags if x["severity"] == "Error" and x.get("code") != "parse_error")
+                pwarn = sum(1 for x in diags if x["severity"] == "Warning")
+                counts = f"({summary['parse_errors']} {summary['errors']} {summary['warnings']})" if summary else "none"
+                fsx = " ".join(f"({cli.sq(f)} false {o})" for f, o in zip(inner_files + ["f_top_clean.lua"], outcomes))
+                bb = lambda x: "true" if x else "false"
+                lines.append(f"C19.run\t(({fsx}) ({bb(aw)} {bb(ne)} false false 0))\t({rc} {bb(summary is not None)} {counts} {perr} {pwarn})")
+                ctx.stats["listed_directory_runs"] = ctx.stats.get("listed_directory_runs", 0) + 1
     # crashed workers: stdout is /dev/full, so every file that has something to print panics in its worker
     # (the write fails); files with nothing to print do not. Exit must be 1 whenever a worker crashed.
     b = lambda x: "true" if x else "false"
